@@ -843,7 +843,13 @@ pub fn gen_big_pl(rng: &mut Rng, kind: u64) -> (String, &'static str) {
                 out.push_str(&format!(" (LABEL D {}) (KRN D {} R 0.{}) (STOP)\n", c, 255 - c, c));
             }
             out.push_str(")\n");
+            // one time in three: 254, 255 or 256 DISTINCT extensible recipes (ne at its limit of 256)
+            let many_recipes = if rng.chance(1, 3) { 254 + rng.below(3) as u32 } else { 0 };
             for c in 0..256u32 {
+                if c < many_recipes {
+                    out.push_str(&format!("(CHARACTER D {} (CHARWD R 0.{}) (VARCHAR (REP D {})))\n", c, c, c));
+                    continue;
+                }
                 match rng.below(4) {
                     0 => out.push_str(&format!("(CHARACTER D {} (CHARWD R 0.{}) (NEXTLARGER D {}))\n", c, c, (c + 1) % 256)),
                     1 => out.push_str(&format!(
